@@ -790,7 +790,7 @@ impl ConnSim {
     pub async fn op(&mut self, op: &str, ctx: &mut Ctx) -> bool {
         let Some((c, arg)) = split_op(op) else { return false };
         match c {
-            's' | 'S' | 'g' | 'G' | 'x' | 'w' => {
+            's' | 'S' | 'g' | 'G' | 'x' | 'w' | 'h' => {
                 if !arg.is_empty() {
                     return false;
                 }
@@ -807,6 +807,8 @@ impl ConnSim {
                         return true;
                     }
                     'G' => self.set_gate(false),
+                    // `Connection::trigger_keepalive` (the pool calls it on a STATUS_CHANGE DOWN event)
+                    'h' => self.conn.trigger_keepalive(),
                     'w' => {
                         let mut g = self.gate.lock().unwrap();
                         g.fail = true;
